@@ -93,6 +93,8 @@ def variant(b, i):
         b['tick_inside'] = True
     if i % 5 == 2 and not b['cfg'].get('bodies'):
         b['cfg'] = dict(b['cfg'], bodies='corrupt_gzip')
+    if i % 5 == 4 and not b['cfg'].get('bodies'):
+        b['cfg'] = dict(b['cfg'], bodies='gzip')     # the origin gzips its cacheable answers itself; the clients accept gzip
     # request headers pike's cache decisions do not depend on (every client of the behaviour sends them)
     if i % 7 in (3, 5, 6) and not b['cfg'].get('req'):
         b['cfg'] = dict(b['cfg'], req={3: 'range', 5: 'only_if_cached', 6: 'no_cache'}[i % 7])
